@@ -53,6 +53,12 @@ Mutations of the real code tried (fresh copy of /repo, VERIF_REPO, ./check C08 -
     * intformat.c ChkIntFormatInt: radix guard `<=` -> `<`             -> caught by the literal part (279)
     * operator.c DivOp: integer x/0 yields 0 instead of an error       -> caught (36, "no error is reported")
     With all ten proposed fixes applied to a copy: 0 violations, no KNOWN-FINDING line.
+    * (after an independently seeded miss) function.c FuncSUBSTR: start position held in an `int` (cut to 32 bits before the
+      clamps) -> invisible while function arguments were only small numbers; now every integer parameter of every built-in
+      function and the right operand of >< << >> runs through 0, +-1, len-1, len, len+1, 2^31-1, 2^31, 2^32-1, 2^32, 2^32+1,
+      2^32+3, 2^32+97, 2^63-1, -2^31, -2^32, -2^63 (Expr_Gen BoundaryFunCases; SUBSTR is evaluated on Limb64 values):
+      caught, 80 violations (substr("abcd",100000001h,3) = "bcd").  FuncTOUPPER comparing (int) casts: caught
+      (TOUPPER(100000061h) = 65 instead of an error).
 """
 import os
 import re
